@@ -27,7 +27,8 @@ def _job(args):
         import openpyxl
         out = []
         for k, rec in enumerate(recs):
-            x = os.path.join(scratch, f'c19_{idx}_{k}.xlsx')
+            # every second chunk writes all its workbooks to ONE path in turn (a file that is edited and read again)
+            x = os.path.join(scratch, f'c19_{idx}_{k if idx % 2 == 0 else 0}.xlsx')
             wb = openpyxl.Workbook()
             wb.remove(wb.active)
             sheets = [wb.create_sheet(t) for t in TITLES]
